@@ -24,7 +24,9 @@ def focused_on(rng, fns, var, conds=False):
 
 def gen_ovr(rng, s):
     keys = sorted(S.all_keys(s))
-    k = rng.choice(["const", "const", "addkey", "iflt"])
+    k = rng.choice(["const", "const", "addkey", "iflt", "samefloat"])
+    if k == "samefloat":
+        return {"k": "samefloat"}
     if k == "const":
         return {"k": "const", "c": rng.randint(500, 999)}
     if k == "addkey":
